@@ -1152,21 +1152,16 @@ pub fn run(opts: &Options) -> FilterRepoResult<()> {
                     }
                 }
                 if drop_path {
-                    // Emit deletion for the path (sanitize + quote)
-                    let raw = &bytes[path_start..];
-                    let decoded = crate::pathutil::decode_fast_export_path_bytes(raw);
-                    let (enc, path_event) = crate::pathutil::encode_path_for_fi_with_policy(
-                        &decoded,
-                        opts.path_compat_policy,
-                    )
-                    .map_err(io::Error::other)?;
-                    if let Some(event) = path_event {
+                    // Emit a deletion for the path, filtered and renamed like any other change
+                    let mut delete_line = b"D ".to_vec();
+                    delete_line.extend_from_slice(&bytes[path_start..]);
+                    let outcome = crate::filechange::handle_file_change_line(&delete_line, opts)
+                        .map_err(io::Error::other)?;
+                    for event in outcome.path_compat_events {
                         record_path_compat_event(&mut path_compat_stats, event);
                     }
-                    if let Some(enc) = enc {
-                        commit_buf.extend_from_slice(b"D ");
-                        commit_buf.extend_from_slice(&enc);
-                        commit_buf.push(b'\n');
+                    if let Some(rebuilt) = outcome.line {
+                        commit_buf.extend_from_slice(&rebuilt);
                         commit_has_changes = true;
                     }
                     let path_bytes = &bytes[path_start..];
